@@ -86,6 +86,9 @@ class CallMixin:
             if t and self.eng.ct.known(t):
                 q = self.eng.repo.method_owner(t, f.attr) if self.eng.repo.class_module(t) else None
                 if q:
+                    # dynamic dispatch: prefer the virtual contract every override refines
+                    if (q + "!virtual") in self.reg.contracts:
+                        return q + "!virtual"
                     return q
                 # method defined in an external base: contract may be registered as Class.meth
                 for c in self.eng.ct.ancestors(t):
@@ -371,6 +374,36 @@ class CallMixin:
         if c.raw_requires:
             for j, g in enumerate(c.raw_requires(env0)):
                 self.oblige(st, "call-pre", "%s.r%d" % (lab, j + 1), g, ln)
+        if c.pure_when and not getattr(self, "_in_pure", False):
+            cond = z3.simplify(env0.formula(c.pure_when))
+            if not z3.is_false(cond):
+                ps = st.copy() if not z3.is_true(cond) else st
+                ps.assume(cond)
+                # no effect on the heap: evaluate the postcondition over old == new
+                res_p = fresh_v("r_" + short.replace(".", "_"))
+                ps.assume(ps.heap.sel("$alloc", res_p))
+                envp = SpecEnv(self.eng, names, ps.heap, ps.heap.copy(), result=res_p, fx=self)
+                for p in c.post:
+                    ps.assume(envp.formula(p))
+                if c.xpost is not None:
+                    xs = ps.copy()
+                    exc = fresh_v("exc_" + short.replace(".", "_"))
+                    xs.assume(smt.subclass(smt.typeof(exc), self.eng.ct.cls("BaseException")))
+                    xs.assume(xs.heap.sel("$alloc", exc))
+                    envx = SpecEnv(self.eng, names, xs.heap, xs.heap.copy(), exc=exc, fx=self)
+                    dead = False
+                    for p in c.xpost:
+                        fml = z3.simplify(envx.formula(p))
+                        if z3.is_false(fml):
+                            dead = True
+                            break
+                        xs.assume(fml)
+                    if not dead and self.feasible(xs):
+                        yield xs, None, exc
+                yield ps, res_p, None
+                if z3.is_true(cond):
+                    return
+                st.assume(z3.Not(cond))
         old = st.heap.copy()
         key = "$calls:" + cname
         st.ghost[key] = st.ghost.get(key, 0) + 1
@@ -384,8 +417,8 @@ class CallMixin:
             # visible-state discipline: object invariants must hold when unknown code may run
             if self.contract.inv_exit and not self.contract.labels.get("noinv@" + short):
                 inv = self.eng.inv(st.heap)
-                if inv:
-                    self.oblige(st, "inv", "callout:" + lab, z3.And(*inv), ln)
+                for i, f in enumerate(inv):
+                    self.oblige(st, "inv", "callout:%s.%d" % (lab, i + 1), f, ln)
             st.heap = st.heap.havoc_all()
             for f_ in self.eng.wf(st.heap):
                 st.assume(f_)
